@@ -142,6 +142,7 @@ class Spec(pipeprops.PropSpec):
                     sc["allow_redundant_or"] = False
                 c["runs"].append((ts, sc, "shacl"))
         cases += mcases
+        cases += _decor_stream(tier, rnd)       # examples_mode / detect_minimal_iri (block below the class)
         return cases
 
     def model_other(self, ts, cfg, kind, impl):
@@ -205,6 +206,53 @@ class Spec(pipeprops.PropSpec):
                     rc = "rc_choice_prune"
                 fails.append((rc, "%s raises %s at %s" % (kind, res[1], res[2] if len(res) > 2 else "")))
         return fails, len(impl)
+
+
+# --------------------------------------------------------------------------
+# examples_mode / detect_minimal_iri: the crash oracle over the decorated runs (run kind "decor" = vp.pipedecor's
+# runner: Shaper(..., detect_minimal_iri, examples_mode).shex_graph to a string; model: Model/RunDecor.v).  A crash
+# is a violation unless its data-computed root cause (pipedecor.root_cause) is the tag of a listed known finding;
+# the tag is never produced once ShexSerializer._serialize_example carries the `candidate is None` guard.
+# Self-contained: wraps Spec.oracle / Spec.model_other / pipe.impl_other as they are at this point of the file.
+# --------------------------------------------------------------------------
+from vp import pipedecor
+
+pipedecor.install()
+
+
+def _decor_stream(tier, rnd):
+    return pipedecor.c04_cases(tier, rnd, [adversarial, lambda r: pipe.gen_graph(r, general=True),
+                                           lambda r: pipe.gen_graph(r, general=False)])
+
+
+def _wrap_for_decor():
+    oracle0 = Spec.oracle
+    hook0 = getattr(Spec, "model_other", None)
+
+    def oracle(self, case, impl):
+        rest = [(rn, res) for rn, res in zip(case["runs"], impl) if not (len(rn) > 2 and rn[2] == pipedecor.KIND)]
+        fails, _ = oracle0(self, {"runs": [x[0] for x in rest], "meta": case.get("meta", {})}, [x[1] for x in rest])
+        for rn, res in zip(case["runs"], impl):
+            if len(rn) > 2 and rn[2] == pipedecor.KIND and res[0] != "ok":
+                fails.append((pipedecor.root_cause(rn[0], rn[1], res),
+                              "shexc with detect_minimal_iri=%r, examples_mode=%r raises %s at %s" % (
+                                  bool(rn[1].get("detect_minimal_iri")), rn[1].get("examples_mode"), res[1],
+                                  res[2] if len(res) > 2 else "")))
+        return fails, len(impl)
+
+    def model_other(self, ts, cfg, kind, impl):
+        prev = (lambda *a: hook0(self, *a)) if hook0 is not None else None
+        return pipedecor.model_other(ts, cfg, kind, impl, prev)
+
+    Spec.oracle = oracle
+    Spec.model_other = model_other
+    Spec.rule += ("; plus the decorated stream (vp.pipedecor.c04_cases: the same graphs x random accepted "
+                  "configurations x examples_mode {None, shape, cons, all} x detect_minimal_iri, at least one of the "
+                  "two set; target classes without instances with empty shapes kept; model-corresponded with "
+                  "Model/RunDecor.v)")
+
+
+_wrap_for_decor()
 
 
 def run(tier, seed, replay=None):
